@@ -34,9 +34,10 @@ type tok struct {
 }
 
 type detector struct {
-	src   string
-	feats map[string]bool
-	notes map[string]bool // finer observations used to tag scenarios
+	src      string
+	feats    map[string]bool
+	notes    map[string]bool // finer observations used to tag scenarios
+	subDepth int
 }
 
 func isIDStart(c byte) bool {
@@ -124,6 +125,7 @@ func (d *detector) tokenize(i int, inTemplate bool) ([]tok, int) {
 				if src[j] == '\\' {
 					if j+2 < len(src) && src[j+1] == 'u' && src[j+2] == '{' {
 						d.add("UnicodeEscapes")
+						d.notes["unicode-escape-elsewhere"] = true
 					}
 					j++
 				}
@@ -133,11 +135,23 @@ func (d *detector) tokenize(i int, inTemplate bool) ([]tok, int) {
 			i = j + 1
 		case c == '`':
 			d.add("TemplateLiteral")
+			// tagged: the template directly follows an expression (identifier, member, call, template)
+			tagged := false
+			if len(out) > 0 {
+				pt := out[len(out)-1]
+				tagged = (pt.k == tIdent && !regexPrevKeywords[pt.s]) || pt.k == tTemplate || pt.k == tPrivate ||
+					(pt.k == tPunct && (pt.s == ")" || pt.s == "]"))
+			}
 			j := i + 1
 			for j < len(src) && src[j] != '`' {
 				if src[j] == '\\' {
 					if j+2 < len(src) && src[j+1] == 'u' && src[j+2] == '{' {
 						d.add("UnicodeEscapes")
+						if tagged {
+							d.notes["unicode-escape-in-tagged-template-raw"] = true
+						} else {
+							d.notes["unicode-escape-elsewhere"] = true
+						}
 					}
 					j += 2
 					continue
@@ -183,6 +197,7 @@ func (d *detector) tokenize(i int, inTemplate bool) ([]tok, int) {
 			for j < len(src) && isIDPart(src[j]) {
 				if src[j] == '\\' && j+2 < len(src) && src[j+1] == 'u' && src[j+2] == '{' {
 					d.add("UnicodeEscapes")
+					d.notes["unicode-escape-elsewhere"] = true
 					for j < len(src) && src[j] != '}' {
 						j++
 					}
@@ -247,7 +262,9 @@ func (d *detector) tokenize(i int, inTemplate bool) ([]tok, int) {
 // analysed as an expression of their own.
 func (d *detector) scanSub(i int) ([]tok, int) {
 	toks, j := d.tokenize(i, true)
+	d.subDepth++ // the enclosing function context is unknown here: no top-level-await verdicts
 	d.analyse(toks)
+	d.subDepth--
 	return toks, j
 }
 
@@ -333,6 +350,9 @@ func (d *detector) analyse(toks []tok) {
 		return toks[i]
 	}
 	inFunction := func() bool {
+		if d.subDepth > 0 {
+			return true
+		}
 		for _, f := range stack {
 			if f.isFn {
 				return true
@@ -676,6 +696,8 @@ func (d *detector) analyse(toks []tok) {
 			case "{":
 				nf := &frame{kind: fBlock}
 				switch {
+				case pendingClass && prev.k == tIdent && prev.s == "extends":
+					nf.kind = fObject // class C extends { ...b } { }: the heritage is an object literal
 				case pendingClass && len(stack) == pendingClassDepth:
 					nf.kind = fClass
 					pendingClass = false
